@@ -59,4 +59,28 @@ TEXT = {
         "level_text": "Generated-input search: result lists (0..20, occasionally 300..900 results; nil/empty/binary context IDs and metadata; 0..3 addresses) are written through the response writer and read back by client.Find or raw requests with every key form (base58 / hex multihash, CIDv0, CIDv1 in three bases) and Accept variant; JSON mode is compared result by result, streaming mode line by line; empty sets must be 404 on the wire and an empty response for the client. Accept headers (supported / unsupported / malformed elements, several header values) x preferJson x request paths are checked against a negotiation model (must-reject => 4xx *apierror.Error whose status and message survive the wire). API errors round-trip through EncodeError/DecodeError.",
         "level_note": "Trusted: net/http loopback transport, mime.ParseMediaType as the definition of 'malformed'. Hex keys that are also valid base58 are skipped (ambiguous in the API; counted). Headers mixing supported and malformed elements are not asserted.",
     },
+    "C01": {
+        "engine": "h26",
+        "technique": "property-based testing (rapid) + bounded-exhaustive sweep of the real subscriber in a synctest bubble: reference model, request-log oracle, metamorphic family over segment size and pre-stored blocks",
+        "level_text": "Generated-input search against the real dagsync.Subscriber and ipnisync.Publisher talking HTTP over an in-memory network inside a testing/synctest bubble. Each drawn base configuration (chain kind and length, initial latest-sync, stop CID, resync, explicit/queried head, every depth option, entry point, transport mode) is executed as a family over segment sizes and pre-stored subsets (fresh world each) and checked against (1) a reference model of the expected block list, returned head, latest-sync and notification, (2) the publisher's request log (exactly the non-stored segment blocks, in order; stop block and older never requested) and (3) equality of observations across the family. The sweep unit enumerates all configurations for chain lengths <= 3 (quick) / <= 5 (thorough).",
+        "level_note": "Trusted: the harness's world (net.Pipe network, http.Server, request recorder) and its reference model written from the statement and option docs. Strict ads selector only; resync + queried head does not assert the latest-sync update. The library runs on the go1.26.8 standard library here (synctest exists nowhere else).",
+    },
+    "C02": {
+        "engine": "h26",
+        "technique": "fault enumeration + property-based testing: body faults injected by the simulated publisher, independent hash audit of the destination store after every sync",
+        "level_text": "Every single-bit flip and every truncation length (honest and dishonest Content-Length), every substitution, empty / appended / oversized bodies are enumerated for a 3-ad chain (quick: sha2-256 full and truncated, one request position, ~11k syncs; thorough: 14 hash functions x 3 positions), plus random cases over 1..5-block ad and entry chains with 1..3 faulty syncs and 14 multihash functions incl. identity. After every sync an audit recomputes, independently of the library, the multihash named in each stored key over the stored value; hook calls must name audited chain blocks; a differing body must fail the sync, failed syncs must not move latest-sync or emit events; the final honest sync must leave exactly the chain.",
+        "level_note": "Trusted: go-multihash for the audit (a different call path than the library's SumStream), the world. 'Differs' is byte inequality with the honest body (hash collisions ignored).",
+    },
+    "C03": {
+        "engine": "h23+h26",
+        "technique": "property-based testing (rapid): independent signature verifier and 'accepted => signed by the test' oracle on head encodings; scripted head responses against the real subscriber; native go fuzzing (thorough)",
+        "level_text": "Unit level (h23): two valid heads and one alteration (CID/topic/key/signature replaced, swaps between heads, re-signing, bit flips, truncation, duplicated fields), all key types and topic shapes; whenever Decode+Validate accepts, an independent verifier (generic DAG-JSON decode + libp2p verify) must agree and (signer, cid||topic) must be one the test signed; publisher-served heads must verify for exactly root, topic and identity. Subscriber level (h26 bubble): 1..4 consecutive SyncAdChain calls on one syncer against drawn head responses (honest, valid, foreign signer, CID swapped under a kept signature, topic/sig/key alterations, empty peer ID): accepted iff valid and signed by the synced publisher, otherwise no block request after the head, no state change.",
+        "level_note": "Trusted: libp2p key parsing/verification (also used by the independent verifier), go-ipld-prime DAG-JSON. When the generic decoder rejects an encoding the typed one accepts (repeated keys), only the no-forgery oracle applies.",
+    },
+    "C04": {
+        "engine": "h26",
+        "technique": "fault enumeration + property-based testing: differential against a fault-free run of the same configuration, three-attempt scripts (fault, fault in the retry, recovery)",
+        "level_text": "All 12 fault kinds (HTTP 400/403/404/429/500/503, reset, truncated body, bit flip, stalled response costing only virtual time, caller cancellation, hook FailSync) are enumerated at every request index for explicit and announce-triggered, plain and discovery, segmented and unsegmented syncs (quick n=3; thorough n<=5 plus all ordered pairs for n=3), plus random cases with retryable client, two addresses and prior syncs. A failed attempt must leave latest-sync unchanged, emit no success and (announce) exactly one error notification; the recovery attempt must succeed, equal the fault-free reference run in latest-sync, store contents and reported blocks, and request exactly the blocks not yet stored. Led to two fix commits (sticky no-path fallback, exhausted address fail-over).",
+        "level_note": "Trusted: the world and virtual clock. Faults the client legitimately masks (retry, fail-over) are accepted as success; only FailSync reached in a segmented sync must fail. Pubsub republish paths are outside this world (no libp2p host).",
+    },
 }
